@@ -204,19 +204,54 @@ def rows_round2(case, V):
     ci["NMONTHS"] = N
     recorded = {}
 
+    herd = [h for h in HERD if h[0] in case["herd"]]
+    full = bool(herd)          # with a herd: run on past the herd simulation, up to the point where the round-1 result is read
+
     class StubCFM(ap.CalculateFeedAndMeat):
         def __init__(self, country_code, available_feed, available_grass, scenario, kcals_per_head_meat_dict, constants_inputs=None):
             recorded["available_feed"] = available_feed
             recorded["wiring"] = (country_code, scenario, constants_inputs)
+            if not full:
+                raise _Stop()
+            s = stub_herd(ap, fd, lambda n, lo, hi: V("r2_" + n, lo, hi), case["NS"], herd, feed_used=[V("r2_herd_feed_used_%d" % m, 0, 1e6) for m in range(case["NS"])])
+            self.all_animals, self.feed_used, self.grass_used = s.all_animals, s.feed_used, s.grass_used
+
+    class _ReadsRound1:
+        """stands for the round-1 result: the first attribute the code reads from it ends the run (everything checked here happens before)"""
+        def __getattr__(self, name):
             raise _Stop()
     fab = fb.FeedAndBiofuels(ci)
     bio_demand, feed_demand = fab.get_biofuels_and_feed_from_delayed_shutoff(ci)
+    co1, tc1 = {}, {}
+    if full:
+        NS = case["NS"]
+        fmo1 = stub_herd(ap, fd, lambda n, lo, hi: V("r1_" + n, lo, hi), NS, herd, feed_used=[0.0] * NS)
+        mad = md.MeatAndDairy(ci)
+        mad.initialize_this_country_animal_kcals(ci)
+        with contextlib.redirect_stdout(io.StringIO()):
+            fu1, md1, tc1, co1 = pm.Parameters().init_meat_and_dairy_and_feed_from_breeding(ci, fmo1, fab, mad, {}, {})
+    frame_locals = {}
     with patched(pm, extra={(pm, "CalculateFeedAndMeat"): StubCFM}, np=False), contextlib.redirect_stdout(io.StringIO()):
         try:
-            pm.Parameters().compute_parameters_second_round(ci, {}, {}, None)
-        except _Stop:
-            pass
+            pm.Parameters().compute_parameters_second_round(ci, co1, tc1, _ReadsRound1() if full else None)
+        except _Stop as e:
+            tb = e.__traceback__
+            while tb is not None:
+                if tb.tb_frame.f_code.co_name == "compute_parameters_second_round":
+                    frame_locals = dict(tb.tb_frame.f_locals)
+                tb = tb.tb_next
     out = []
+    if full:
+        t2 = frame_locals.get("time_consts_round2")
+        if not frame_locals:
+            return [("feed round aborted by the code (less meat with feed than without): nothing is handed over", "true", True, True)]
+        out.append(("the feed round's parameters were computed up to the hand-over", "true", t2 is not None and "max_consumed_culled_kcals_each_month" in t2, True))
+        if t2 is not None and "max_consumed_culled_kcals_each_month" in t2:
+            acc = 0
+            for m in range(case["NS"]):
+                acc = acc + t2["each_month_meat_slaughtered"].kcals[m]
+                out.append(("feed round: the running meat total handed to the optimiser is the cumulative re-timed slaughter of THAT round", "eq", t2["max_consumed_culled_kcals_each_month"][m], acc))
+        return out
     for m in range(N):
         out.append(("the feed round offers its herds the feed demand schedule", "eq", recorded["available_feed"].kcals[m], feed_demand.kcals[m]))
     w = recorded["wiring"]
@@ -404,6 +439,7 @@ def main(tier, seed, only=None):
         r3.append(dict(kind="round3", country=c, N=12, herd=["pig", "meat_cattle"], round2_skipped=True))
         r3.append(dict(kind="round1", country=c, N=12, herd=["chicken", "meat_cattle", "milk_cattle"]))
         r3.append(dict(kind="round2", country=c, N=12, herd=[]))
+        r3.append(dict(kind="round2", country=c, N=24, NS=2, herd=["meat_cattle", "milk_cattle"]))
     if thorough:
         pass      # a 4-herd final round does not finish in 25 min even at 2 months (the bump forks ~10 ways per month and herd): the thorough tier adds a country instead
     stubs = STUBS + ["CalculateFeedAndMeat (the herd simulation) replaced by a stub with symbolic monthly slaughter, herd size and feed use; its real get_meat_produced / get_total_milk_bearing_animals run",
